@@ -171,12 +171,36 @@ def rootExpect : TimeV → TagCtx → TimeV → List Call → List (TimeV × Tim
     | .stopTest _ => (start, clock, tags.cur) :: rootExpect now tags.pop start h
     | _ => rootExpect now tags start h
 
+/-- what a `Tagger` passes on: `done` goes nowhere, every `startTest` is followed by the `Tagger`'s own `tags(new, gone)`
+— whether `new` is empty or not -/
+def taggerPass (n g : TagSet) : List Call → List Call
+  | [] => []
+  | .done :: h => taggerPass n g h
+  | .startTest t :: h => .startTest t :: .tags n g :: taggerPass n g h
+  | c :: h => c :: taggerPass n g h
+
+/-- what a `TestResultDecorator` passes on -/
+def decoPass : List Call → List Call
+  | [] => []
+  | .done :: h => decoPass h
+  | c :: h => c :: decoPass h
+
+/-- the calls a `TestByTestResult` gets when it is used directly or through `TestResultDecorator`s / `Tagger`s -/
+def pathHist : Shape → List Call → Option (List Call)
+  | .tbt, h => some h
+  | .deco c, h => pathHist c (decoPass h)
+  | .tagger n g c, h => pathHist c (taggerPass n g h)
+  | _, _ => none
+
+/-- times and tags of the callbacks of a `TestByTestResult` used directly or below `TestResultDecorator`s / `Tagger`s:
+as `rootExpect` says for the calls that get there — i.e. each test with the reporter's tags adjusted by every `Tagger`
+on the way (added and removed ones) -/
 def cTbtRoot (i : Input) (t : Trace) : Bool :=
-  match i.shape, t with
-  | .tbt, [l] => !wfEvs (testEvs i.hist) ||
-      l.calls.map (fun c => (c.start, c.stop, c.tags)) == rootExpect .none {} .none i.hist
-  | .tbt, _ => false
-  | _, _ => true
+  match pathHist i.shape i.hist, t with
+  | some h, [l] => !wfEvs (testEvs i.hist) ||
+      l.calls.map (fun c => (c.start, c.stop, c.tags)) == rootExpect .none {} .none h
+  | some _, _ => false
+  | none, _ => true
 
 def clauses : List (String × (Input → Trace → Bool)) :=
   [("forward", cForward), ("no-pass-from-fail", cNoPassFromFail), ("details-text", cDetailsText),
